@@ -335,6 +335,8 @@ class TermIndex:
                 self.add_idx(a1 + a2 - 1)
             elif k == z3.Z3_OP_SEQ_AT:
                 self.add_idx(x.arg(1))
+            elif k == z3.Z3_OP_SEQ_LENGTH:
+                self.add_idx(x)          # lengths are natural witnesses for existential index goals
             elif k == z3.Z3_OP_EQ:
                 a0 = x.arg(0)
                 if z3.is_seq(a0):
@@ -779,7 +781,7 @@ def renth(t):
         r = x
         if z3.is_app(x) and x.num_args() > 0:
             if x.decl().kind() == z3.Z3_OP_ITE and z3.is_app(x.arg(1)) and z3.is_app(x.arg(2)) \
-                    and x.arg(1).decl().name() == "seq.nth_i" and x.arg(2).decl().name() == "seq.nth_u" \
+                    and {x.arg(1).decl().name(), x.arg(2).decl().name()} == {"seq.nth_i", "seq.nth_u"} \
                     and x.arg(1).arg(0).get_id() == x.arg(2).arg(0).get_id() \
                     and x.arg(1).arg(1).get_id() == x.arg(2).arg(1).get_id():
                 r = go(x.arg(1).arg(0))[go(x.arg(1).arg(1))]
@@ -820,7 +822,7 @@ class FunctionVerifier:
     def __init__(self, prog: Program, reg: Registry, qualname: str):
         self.prog, self.reg, self.qual = prog, reg, qualname
         self.contract: Contract = reg.contracts[qualname]
-        self.fi = prog.func(qualname.split("@")[0])
+        self.fi = prog.func(qualname.split("@")[0].split("#")[0])
 
     def variants(self):
         c = self.contract
@@ -830,8 +832,13 @@ class FunctionVerifier:
         """Symbolically execute under each variant and return (obligations, info)."""
         obligations = []
         info = {"function": self.qual, "variants": 0, "paths": 0, "assumptions": []}
+        self.reg.dict_hint = self.contract.dict_hint or None
+        if self.reg.dict_hint in ("Envelope",):
+            self.reg.envelope_type()
+        if self.reg.dict_hint in ("RuleChild",):
+            self.reg.rule_child_record()
         for vi, var in enumerate(self.variants()):
-            ex = Executor(self.prog, self.reg, self.qual.split("@")[0])
+            ex = Executor(self.prog, self.reg, self.qual.split("@")[0].split("#")[0])
             ex.contract_name = self.qual
             obs = self.run_variant(ex, var, vi)
             obligations.extend(obs)
